@@ -71,6 +71,11 @@ SPACE = {
     "compiler_env_script": ["export SIM_ENV_D=1", "export SIM_ENV_D=2"],
     "compiler_language": ["cpp", "c"],
     "okl": [True, False],
+    # how `defines` and `compiler_flags` reach the build: 0 top-level build property; 1 under modes/<mode> of the build
+    # properties with a decoy (the other value) at top level; 2 device-level kernel/<prop>; 3 top-level with a decoy under
+    # another mode's section (which must never take effect)
+    "ch_defines": [0, 1, 2, 3],
+    "ch_flags": [0, 1, 2, 3],
 }
 FLAG_PROPS = ["compiler_flags", "compiler_linker_flags", "compiler_shared_flags"]
 KEYS = sorted(SPACE)
@@ -91,25 +96,49 @@ def effective_key(cfg):
     c = dict(cfg)
     if SPACE["okl"][c["okl"]]:
         c["compiler_language"] = 0
+    # the channel through which a value arrives is not a build input, the value is
+    c["ch_defines"] = c["ch_flags"] = 0
     return cfg_key(c)
 
 
-def job_spec(cfg, sb_proj, functions_on=True):
+def job_spec(cfg, sb_proj, mode="Serial"):
+    """Returns (job, device_props)."""
     v = {k: SPACE[k][cfg[k]] for k in KEYS}
     props = {
-        "defines": {"DEF_D": v["defines"]},
         "includes": [os.path.join(sb_proj, v["includes"])],
         "headers": [v["headers"]],
         "compiler": os.path.join(ps.BIN, v["compiler"]),
-        "compiler_flags": v["compiler_flags"],
         "compiler_linker_flags": v["compiler_linker_flags"],
         "compiler_shared_flags": v["compiler_shared_flags"],
         "compiler_env_script": v["compiler_env_script"],
         "compiler_language": v["compiler_language"],
         "okl": {"enabled": v["okl"]},
     }
-    return {"kind": "string", "kernel": "k", "n": N, "source": KERNEL % {"src": v["src"]},
-            "props": props, "fnvariant": v["functions"]}
+    dev = {}
+    other = "OpenMP" if mode == "Serial" else "Serial"
+
+    def place(channel, name, value, decoy):
+        if channel == 0:
+            props[name] = value
+        elif channel == 1:
+            props[name] = decoy
+            props.setdefault("modes", {}).setdefault(mode, {})[name] = value
+        elif channel == 2:
+            dev.setdefault("kernel", {})[name] = value
+        else:
+            props[name] = value
+            props.setdefault("modes", {}).setdefault(other, {})[name] = decoy
+    dvals = SPACE["defines"]
+    place(v["ch_defines"], "defines", {"DEF_D": v["defines"]}, {"DEF_D": dvals[(cfg["defines"] + 1) % len(dvals)]})
+    place(v["ch_flags"], "compiler_flags", v["compiler_flags"], FLAG_POOL[(cfg["compiler_flags"] + 1) % len(FLAG_POOL)])
+    job = {"kind": "string", "kernel": "k", "n": N, "source": KERNEL % {"src": v["src"]},
+           "props": props, "fnvariant": v["functions"]}
+    return job, dev
+
+
+def vspec(mode, cfg, sb):
+    job, dev = job_spec(cfg, sb.proj, mode)
+    return ps.VProcSpec({"mode": mode, "device": dev, "jobs": [job]})
 
 
 def gen(seed, index):
@@ -154,7 +183,7 @@ def reference(mode, cfg, sb, seed):
         return _ref_cache[key]
     sb.reset()
     _write_includes(sb)
-    g = ps.run_group(sb, seed, [ps.VProcSpec({"mode": mode, "jobs": [job_spec(cfg, sb.proj)]})], strategy=("rtb", 0, 1))
+    g = ps.run_group(sb, seed, [vspec(mode, cfg, sb)], strategy=("rtb", 0, 1))
     o = g.outputs[0][0] if g.outputs[0] else {"status": "none"}
     res = {"status": o.get("status"), "out": o.get("out"), "what": o.get("what", ""), "sig": g.vp[0]["sig"]}
     _ref_cache[key] = res
@@ -179,8 +208,7 @@ def execute(scn, sb):
     logs = []
     builds = []
     for i, cfg in enumerate(hist):
-        g = ps.run_group(sb, seed, [ps.VProcSpec({"mode": mode, "jobs": [job_spec(cfg, sb.proj)]})],
-                         strategy=("rtb", 0, 1), clock0=steps * 10 ** 6)
+        g = ps.run_group(sb, seed, [vspec(mode, cfg, sb)], strategy=("rtb", 0, 1), clock0=steps * 10 ** 6)
         steps += g.gsteps
         logs += g.log
         o = g.outputs[0][0] if g.outputs[0] else {"status": "none"}
